@@ -15,7 +15,8 @@ RULE = ("(i) structural comparison of the two *loaded* parsers (fresh Lark build
         "shipped engine's run-time state: every parse is checked to start from its own empty stacks (hook on "
         "_Parser.parse_from_state), and two or three parses overlapped at line granularity inside the LALR engine by the "
         "deterministic thread scheduler must each give the outcome the text has when parsed alone.  distinct = "
-        "input string (non-trivial: >= 2 tokens), table entries and interleavings")
+        "input string (non-trivial: >= 2 tokens), table entries and interleavings"
+        " A fraction of the inputs are str subclasses (with their own __str__) and members of str-mixing Enums.")
 ASSUMPTIONS = [
     "the reference parser is built by the Lark in /venv (1.3.1) from src/measured/measured.lark with parser='lalr', "
     "start=['unit','quantity'] as in the Makefile rule; the shipped module embeds Lark 1.1.2's runtime",
